@@ -3,7 +3,7 @@
    [dur_decode_pinned], [hex2rgb_pinned] mirror the pinned code).  Strings are lists of code points. *)
 From Coq Require Import List ZArith NArith Reals. Import ListNotations.
 From Flocq Require Import Core.
-Require Import Codec Codecproof CodecDurproof CodecDateproof CodecIsoproof CodecColorproof CodecFloat Gen_Css Typed CodecUnit CodecUnitproof.
+Require Import Codec Codecproof CodecDurproof CodecDateproof CodecIsoproof CodecColorproof CodecFloat Gen_Css Typed CodecUnit CodecUnitproof CodecUnitproof2.
 
 (* ---------------------------------------------------------------- Duration *)
 (* decode inverts encode on every whole-second duration, either sign, no bound *)
@@ -176,6 +176,19 @@ Print Assumptions unit_roundtrip.
 Example unit_example : unit_str (mkdec true 5 (-1)) s_cm = [45;48;46;53;99;109]%N /\ unit_parse [45;48;46;53;99;109]%N = Some (mkdec true 5 (-1), s_cm).
 Proof. split; reflexivity. Qed.
 (* pinned Unit (F70): "-0.5cm" reads as 0.5 with unit "-cm"; Decimal("1E+5") cm prints as "1E+5cm", which reads as 15 with unit "E+cm" *)
+(* a length whose Decimal carries a positive exponent (Unit(Decimal("1E+2"))): "%f" prints digits and zeros, never an exponent, and the text
+   reads back as the SAME NUMBER with exponent 0 ([dec_flat]); with unit_roundtrip this covers every finite Decimal *)
+Theorem unit_roundtrip_positive_exponent : forall (d : dec) (u : str), (0 < dexp d)%Z -> u <> [] -> forallb is_letter u = true ->
+  unit_parse (unit_str d u) = Some (dec_flat d, u) /\ dec_num_eqb d (dec_flat d) = true.
+Proof. exact unit_roundtrip_posexp_lemma. Qed.
+Print Assumptions unit_roundtrip_positive_exponent.
+Theorem unit_roundtrip_numeric : forall (d : dec) (u : str), u <> [] -> forallb is_letter u = true ->
+  exists d', unit_parse (unit_str d u) = Some (d', u) /\ dec_num_eqb d d' = true.
+Proof. exact unit_roundtrip_numeric_lemma. Qed.
+Print Assumptions unit_roundtrip_numeric.
+Example unit_posexp_example : unit_str (mkdec false 15 2) s_cm = [49;53;48;48;99;109]%N /\ unit_parse [49;53;48;48;99;109]%N = Some (mkdec false 1500 0, s_cm).
+Proof. split; vm_compute; reflexivity. Qed.
+
 Theorem unit_roundtrip_refuted :
   unit_parse_pinned [45;48;46;53;99;109]%N = Some (mkdec false 5 (-1), [45;99;109]%N) /\
   unit_parse_pinned (unit_str_pinned (mkdec false 1 5) s_cm) = Some (mkdec false 15 0, [69;43;99;109]%N).
